@@ -29,8 +29,10 @@ def column_label_to_index(label):
     result = 0
     if isinstance(label, string_types):
         label = label.upper()
-        for i, j in zip(range(len(label)), range(len(label) - 1, -1, -1)):
-            result += (COLUMN_LABEL_BASE_LENGTH**j) * (COLUMN_LABEL_BASE.find(label[i]) + 1)
+        # digit by digit, most significant first (a power per letter made a label of 20 000
+        # letters take seconds)
+        for letter in label:
+            result = result * COLUMN_LABEL_BASE_LENGTH + (COLUMN_LABEL_BASE.find(letter) + 1)
     return result - 1
 
 
